@@ -22,6 +22,7 @@ func genSLIter(seed uint64, tier string) *Plan {
 	p.Knobs["mm"] = r.Intn(2)
 	p.Knobs["protect"] = 0
 	nstable := r.Range(2, 6)
+	p.Knobs["reuse_iter"] = r.Intn(2) // an iterator task re-positions one iterator object for all its scans
 	p.Knobs["nstable"] = nstable // stable keys 10,20,...; two churn keys in every gap: 3,6,13,16,23,26,...
 	nchurn := 2 * (nstable + 1)
 	nmut := r.Range(1, 3)
@@ -163,6 +164,13 @@ func runSLIter(env *Env) {
 		ok := false
 		if found {
 			ok = sl.DeleteNode2(curr, cmp, buf, &sl.Stats)
+			var isLive func(unsafe.Pointer) bool
+			if ga != nil {
+				isLive = ga.IsLive
+			}
+			if ok && linkedAtLevel0(sl, curr, isLive) {
+				env.Violate("C15", "deleted-node-still-linked-after-delete-returned", "DeleteNode2(%d) returned true but its node is still linked at level 0: a scan starting now returns the deleted item", k)
+			}
 		}
 		barrier.Release(tok)
 		if ok && mm {
@@ -216,12 +224,16 @@ func runSLIter(env *Env) {
 		}
 		tp := tp
 		s.Go(tp.Name, func() {
+			reuse := plan.Knob("reuse_iter", 0) == 1
+			var it *skiplist.Iterator
 			for _, op := range tp.Ops {
 				s.Yield(SiteHarnessOp)
 				start, steps, rint, rexp, pause := op.Arg(0), op.Arg(1), op.Arg(2), op.Arg(3), op.Arg(4)
 				sc := &scanRec{task: tp.Name, start: start, toEnd: steps == 0, refreshInt: rint}
 				scans = append(scans, sc)
-				it := sl.NewIterator(cmp, sl.MakeBuf())
+				if it == nil || !reuse {
+					it = sl.NewIterator(cmp, sl.MakeBuf())
+				}
 				if rint > 0 {
 					it.SetRefreshInterval(rint)
 				}
@@ -266,12 +278,17 @@ func runSLIter(env *Env) {
 				}
 				sc.end = s.Stamp()
 				s.EndOp()
-				it.Close()
+				if !reuse {
+					it.Close()
+				}
 				var ks []string
 				for _, o := range sc.obs {
 					ks = append(ks, fmt.Sprintf("%d@%d..%d", o.key, o.call, o.ret))
 				}
 				env.Logf("%s scan(start=%d steps=%d rint=%d rexp=%d pause=%d) [%d..%d] -> %v", tp.Name, start, steps, rint, rexp, pause, sc.call, sc.end, ks)
+			}
+			if reuse && it != nil {
+				it.Close()
 			}
 		})
 	}
